@@ -231,6 +231,10 @@ def run(rep, progs, tier):
             if cap is not None:
                 rep.ok("C12.inventory", inst, detail={"where": s.where, "discharged": "capacity is the compile-time constant %d" % cap})
                 continue
+            fpd = panics.found_position_discharge(prog, s)
+            if fpd is not None:
+                rep.ok("C12.inventory", inst, detail={"where": s.where, "discharged": fpd})
+                continue
             if s.kind == "call:alloc::string::String::truncate":
                 why = panics.truncate_at_prefix_len(prog, s)
                 if why is not None:
